@@ -650,6 +650,40 @@ def race_extra(tier, rng, workdir):
         elif [o for o in r[2:]] != [o for o in tw[3:]]:
             failures.append(race_rec(c, r, 1, 106, "after the block / tx-thread race the node differs from 'block, then tx message' "
                                      "(unconfirmed set / later notifications): %s instead of %s" % (r[2:], tw[3:])))
+    # the other way round: the TX thread is in the middle of tx t - t is in the unconfirmed set, the outputs it spends
+    # are being fetched (a network round trip), its state is not stored yet - when the block thread processes a block
+    # that contains t, contains a tx conflicting with t, or has nothing to do with t.  No step may fail (a ProcessBlock
+    # that fails after the header was added never delivers the block's txs, and ends the block thread), and the result
+    # is that of 'tx, then block'.
+    wcfg = {"txs": [[1, [1000], 1], [2, [1000, 1001], 1], [3, [1002], 0], [4, [1003], 1], [5, [1004, 1003], 1]], "delay": DELAY}
+    wcases, wtwins = [], []
+    for t, src, txids in ((1, 0, [3, 1]), (1, 1, [1]), (1, 0, [2]), (2, 1, [3, 1]), (4, 0, [3]), (4, 1, [5, 1]), (5, 0, [4, 2])):
+        tail = [["unconf"], ["block", 2, 1, [], 1], ["delaycheck"], ["unconf"]]
+        wcases.append({"cfg": wcfg, "ops": [["setinsync", 1], ["race_tx_block", t, src, 1, 0, txids]] + tail})
+        wtwins.append({"cfg": wcfg, "ops": [["setinsync", 1], ["tx", t, src], ["block", 1, 0, txids, 1]] + tail})
+    wres, _ = vlib.run_harness("txflow", wcases + wtwins, workdir, tag="txblockrace", timeout=300)
+    wreached = 0
+    for c, r, tw in zip(wcases, wres[:len(wcases)], wres[len(wcases):]):
+        ob = r[1]
+        t = c["ops"][1][1]
+        wreached += ob[1] if len(ob) > 1 else 0
+        if ob[0] != 0 or (len(ob) > 2 and ob[2] == 2):
+            failures.append(race_rec(c, r, 1, 107, "tx thread and block thread wait for each other for ever (%s)" % ob[:4]))
+            continue
+        if len(ob) > 3 and (ob[2] != 0 or ob[3] != 0):
+            failures.append(race_rec(c, r, 1, 105, "a block processed while the tx thread was in the middle of tx %d (in the unconfirmed "
+                                     "set, state not stored yet, fetching the spent outputs): %s returned an error - the block had "
+                                     "been added to the chain, its txs are never delivered" % (t, "ProcessBlock" if ob[2] else "the tx thread")))
+            continue
+        evs = [e for e in parse_events(ob[4:]) if e["t"] == t]
+        inblock = t in c["ops"][1][5]
+        if len([e for e in evs if e["kind"] == 1]) > 1:
+            failures.append(race_rec(c, r, 1, 104, "tx %d was delivered as new twice" % t))
+        elif inblock and not any(e["depth"] == 0 and e["proof"] == 1 for e in evs):
+            failures.append(race_rec(c, r, 1, 108, "tx %d is in the processed block but no notification carries the block's merkle proof: %s" % (t, evs)))
+        elif [o for o in r[2:]] != [o for o in tw[3:]]:
+            failures.append(race_rec(c, r, 1, 106, "after the tx-thread / block race the node differs from 'tx message, then block' "
+                                     "(unconfirmed set / later notifications): %s instead of %s" % (r[2:], tw[3:])))
     # a tx that is NOT in the block, taken by the tx thread while ProcessBlock holds the tx repository: it must wait for
     # the block, then be delivered and stay in the unconfirmed set (the block's finalize must not drop it), so that the
     # later block that contains it sends the update with that block's proof
@@ -714,7 +748,7 @@ def race_extra(tier, rng, workdir):
                     bad = (103, "tx %d reported safe after it was reported unsafe" % e["t"])
         if bad:
             failures.append(race_rec(c, r, 2, bad[0], "block / conflicting tx race: " + bad[1]))
-    return {"failures": failures, "evaluations": len(cases) + len(bcases) + len(ecases) + len(ucases) + len(ccases),
+    return {"failures": failures, "evaluations": len(cases) + len(bcases) + len(ecases) + len(ucases) + len(wcases) + len(ccases),
             "coverage": {"reannounced_with_orphaned_proof_not_judged": stale_coverage(),
                          "rmw_race_scenarios": len(cases), "rmw_race_pause_point_reached": reached["race_delay"],
                          "send_race_pause_point_reached": reached["race_send"],
@@ -722,6 +756,7 @@ def race_extra(tier, rng, workdir):
                          "block_tx_race_scenarios": len(bcases), "block_tx_race_pause_point_reached": breached,
                          "early_block_tx_race_scenarios": len(ecases), "early_block_tx_race_pause_point_reached": ereached,
                          "unrelated_block_tx_race_scenarios": len(ucases), "unrelated_block_tx_race_pause_point_reached": ureached,
+                         "tx_in_flight_block_tx_race_scenarios": len(wcases), "tx_in_flight_block_tx_race_pause_point_reached": wreached,
                          "block_conflict_race_scenarios": len(ccases), "block_conflict_race_pause_point_reached": creached}}
 
 
